@@ -1,10 +1,13 @@
 #!/bin/sh
 # Runs every patch under mutants/<Cxx>/ and seeded/<Cxx>-<i>/patch.diff against its check (quick tier), 6 at a time.
+# usage: tools/mutants_all.sh [Cxx ...]   (default: all properties)
 cd "$(dirname "$0")/.." || exit 2
 LIST=$(mktemp)
 for d in mutants/C*/; do p=$(basename "$d"); for m in "$d"*.diff; do echo "$m $p"; done; done > "$LIST"
 for d in seeded/C*/; do p=$(basename "$d" | cut -d- -f1); echo "${d}patch.diff $p"; done >> "$LIST"
-xargs -P 6 -L 1 sh -c 'tools/mutation_check.sh "$0" "$1" 2>&1 | tail -1' < "$LIST" | sort > /tmp/mutants_all.log
-rm -f "$LIST"
+if [ $# -gt 0 ]; then grep -E " ($(echo "$*" | tr ' ' '|'))\$" "$LIST" > "$LIST.f"; mv "$LIST.f" "$LIST"; fi
+rm -f "$LIST.keep"; cp "$LIST" "$LIST.keep"
+xargs -P ${PAR:-6} -L 1 sh -c 'tools/mutation_check.sh "$0" "$1" 2>&1 | tail -1' < "$LIST.keep" | sort > /tmp/mutants_all.log
+rm -f "$LIST" "$LIST.keep"
 grep -c KILLED /tmp/mutants_all.log
 grep -v KILLED /tmp/mutants_all.log
